@@ -124,7 +124,7 @@ fn empty_tx() -> tir::Tx {
 }
 
 const VERSION_STRINGS: &[&str] = &[
-    "v1alpha8", "v1alpha9", "v1alpha7", "v1alpha0", "v1beta1", "v1beta", "V1BETA0", "V1Beta0", "v1Beta0", " v1beta0", "v1beta0 ", "v1beta0\n", "v1beta00",
+    "v1beta0", "v1alpha8", "v1alpha9", "v1alpha7", "v1alpha0", "v1beta1", "v1beta", "V1BETA0", "V1Beta0", "v1Beta0", " v1beta0", "v1beta0 ", "v1beta0\n", "v1beta00",
     "v2beta0", "v0beta0", "", "latest", "1", "v1", "beta0", "v1-beta0", "v1_beta0", "v1beta0\u{0}", "ｖ1beta0", "v1alpha8 ", "v1gamma0", "v1beta-0",
 ];
 
